@@ -608,6 +608,38 @@ def kwargs_filter(tree, init):
 
 # ------------------------------------------------------------------ pedantic_class accessor
 
+def _as_getattr(node, direct):
+    """`get_instance_attribute(instance=X, name=N, default=D)` (the helper that reads what is stored on the instance WITHOUT falling back to
+    a `__getattr__` of the class) is read as `getattr(X, N, D)`; `direct` collects which of the two forms every read of the stored dict has"""
+    if isinstance(node, ast.Call) and canon(node.func) == 'get_instance_attribute':
+        a = call_args(node, ['instance', 'name', 'default'])
+        if 'instance' in a and 'name' in a:
+            direct.append(True)
+            return ast.Call(func=ast.Name(id='getattr', ctx=ast.Load()), args=[a['instance'], a['name']] + ([a['default']] if 'default' in a else []), keywords=[])
+    elif isinstance(node, ast.Call) and canon(node.func) == 'getattr':
+        direct.append(False)
+    return node
+
+
+def instance_reads_helper_ok(tree):
+    """`get_instance_attribute`: `try: return object.__getattribute__(instance, name)` / `except AttributeError: return default`"""
+    try:
+        fn = find_func(tree, 'get_instance_attribute')
+    except Exception:
+        return False
+    body = [canon(s) for s in fn.body if not (isinstance(s, ast.Expr) and isinstance(s.value, ast.Constant))]
+    return body == ['try:\n    return object.__getattribute__(instance, name)\nexcept AttributeError:\n    return default'] \
+        and [a.arg for a in fn.args.args] == ['instance', 'name', 'default']
+
+
+def already_checked_direct(tree):
+    """`_assert_constructor_called_with_generics` asks for its own mark with get_instance_attribute (not hasattr / getattr)"""
+    fn = find_func(tree, '_assert_constructor_called_with_generics')
+    reads = [canon(n) for n in ast.walk(fn) if isinstance(n, ast.Call) and canon(n.func) in ('hasattr', 'getattr', 'get_instance_attribute')
+             and 'ATTR_NAME_GENERIC_INSTANCE_ALREADY_CHECKED' in canon(n)]
+    return bool(reads) and all(r.startswith('get_instance_attribute(') for r in reads)
+
+
 def accessor(tree):
     outer = find_func(tree, '_add_type_var_attr_and_method_to_class')
     inner = [s for s in outer.body if isinstance(s, ast.FunctionDef)]
@@ -651,10 +683,12 @@ def accessor(tree):
     merge = []
     only_params = False
     SELF = '{TYPE_VAR_SELF: cls}'
+    direct = []
     for v in stmts[0].value.args[2].values:
         node = gen_aliases.get(v.id) if isinstance(v, ast.Name) else v
         if node is None:
             raise Skip('accessor: unknown merge operand')
+        node = _as_getattr(node, direct)
         if isinstance(node, ast.Call) and canon(node.func) == 'getattr' and len(node.args) == 3 and canon(node.args[1]) == 'TYPE_VAR_ATTR_NAME' \
                 and canon(node.args[2]) in ('dict()', '{}'):
             owner_of(node)
@@ -667,7 +701,7 @@ def accessor(tree):
                     and isinstance(g[0].iter, ast.Call) and isinstance(g[0].iter.func, ast.Attribute) and g[0].iter.func.attr == 'items'
                     and not g[0].iter.args):
                 raise Skip('accessor: unknown comprehension over the stored dict')
-            src_ = g[0].iter.func.value
+            src_ = _as_getattr(g[0].iter.func.value, direct)
             if not (isinstance(src_, ast.Call) and canon(src_.func) == 'getattr' and len(src_.args) == 3 and canon(src_.args[1]) == 'TYPE_VAR_ATTR_NAME'
                     and canon(src_.args[2]) in ('dict()', '{}')):
                 raise Skip('accessor: the comprehension does not read the stored dict')
@@ -705,7 +739,11 @@ def accessor(tree):
     owner_of(ret.value)
     if len(owners) != 1:
         raise Skip('accessor: attribute is read and written on different objects')
-    return {'merge': merge, 'nonGenericFresh': non_generic_fresh, 'storeOnInstance': owners == {'instance'}, 'onlyParams': only_params}
+    return {'merge': merge, 'nonGenericFresh': non_generic_fresh, 'storeOnInstance': owners == {'instance'}, 'onlyParams': only_params,
+            'storedReadDirect': bool(direct) and all(direct)}
+
+
+ORIG_DIRECT = [False]
 
 
 def generics_from_orig_class(tree):
@@ -718,8 +756,16 @@ def generics_from_orig_class(tree):
     tail = ['actual_types = get_type_arguments(instance.__orig_class__)',
             'for i, type_var in enumerate(type_variables):\n    type_vars[type_var] = actual_types[i]', 'return type_vars']
     txt = [canon(s) for s in body]
-    if txt[:3] != head or txt[-3:] != tail:
+    # the same, reading `__orig_class__` through get_instance_attribute (no fall-back to a `__getattr__` of the class)
+    head2 = head[:2] + ["orig_class = get_instance_attribute(instance=instance, name='__orig_class__')", 'if orig_class is None:\n    return type_vars']
+    tail2 = ['actual_types = get_type_arguments(orig_class)'] + tail[1:]
+    if txt[:4] == head2 and txt[-3:] == tail2:
+        body = body[:2] + body[3:]           # (the `orig_class = …` line is part of the head)
+        ORIG_DIRECT[0] = True
+    elif txt[:3] != head or txt[-3:] != tail:
         raise Skip('check_instance_of_generic_class_and_get_type_vars: body differs from the modelled one')
+    else:
+        ORIG_DIRECT[0] = False
     mid = body[3:-3]
     aliases = {}
     while len(mid) > 1 and simple_alias(mid[0]):
@@ -857,6 +903,10 @@ def fifoOnlyClassParams : Bool := {lean_bool(ac['onlyParams'])}
 def nonGenericFresh : Bool := {lean_bool(ac['nonGenericFresh'])}
 /-- the attribute is read from and written to the instance (`self`), not the class -/
 def storeOnInstance : Bool := {lean_bool(ac['storeOnInstance'])}
+/-- what the library has stored on an instance (`TYPE_VAR_ATTR_NAME`, `__orig_class__`) is read with `get_instance_attribute`
+    (`object.__getattribute__`, `default` on AttributeError): never through a `__getattr__` of the class - user code, and in a pedantic class
+    a checked method whose wrapper asks for the type variables of the instance again -/
+def storedStateReadDirect : Bool := {lean_bool(ac['storedReadDirect'] and ORIG_DIRECT[0] and instance_reads_helper_ok(ast.parse(src(repo, GC))) and already_checked_direct(ast.parse(src(repo, GC))))}
 /-- `check_instance_of_generic_class_and_get_type_vars`: `{{}}` without `__orig_class__`, else parameters zipped with arguments in order -/
 def genericsFromOrigClass : Bool := {lean_bool(gc[0])}
 /-- ... and where the parameters are taken from -/
